@@ -17,6 +17,9 @@ def schema_marks(model, limit=5):
         if mm.attrs and len(out) < limit:
             alt = {a: "v" for a in mm.required_attrs} or {mm.attrs[0]: "w"}
             out.append(mk(model, name, alt))
+        if mm.required_attrs and len(out) < limit:
+            # a third value: replaces two different marks of this type at once (needs coalescing to be exact)
+            out.append(mk(model, name, {a: "w" for a in mm.required_attrs}))
     return out[:limit]
 
 
